@@ -35,8 +35,30 @@ def main():
     b, e = "<!-- seeded:begin -->", "<!-- seeded:end -->"
     assert b in s and e in s, "markers missing in DESIGN.md"
     s = s[: s.index(b) + len(b)] + "\n" + "\n".join(table) + "\n" + s[s.index(e):]
+    # harmless changes
+    brows = []
+    for d in sorted(glob.glob(os.path.join(ROOT, "benign", "*"))):
+        mp = os.path.join(d, "meta.json")
+        if not os.path.exists(mp):
+            continue
+        m = json.load(open(mp))
+        first = (m.get("confirmation", {}).get("checks") or {})
+        last = (m.get("recheck", {}).get("checks") or {})
+        def verdict(chk):
+            out = []
+            for cid, v in sorted(chk.items()):
+                ls = v.get("lines") or []
+                note = next((l for l in ls if l.startswith("NOTE")), None)
+                out.append("%s: %s%s" % (cid, "ALARM" if v.get("rc") not in (0,) else "ok", " (translator tie soft)" if note and v.get("rc") == 0 else ""))
+            return "; ".join(out)
+        brows.append("| %s | %s | %s | %s | %s |" % (os.path.basename(d), m.get("kind", "?"), short(m.get("summary"), 240),
+                                                  verdict(first) or "-", verdict(last) or "(not re-run)"))
+    btable = ["| change | kind | what | first run | after the corrections of §4 / §10 |", "|---|---|---|---|---|"] + brows
+    b2, e2 = "<!-- benign:begin -->", "<!-- benign:end -->"
+    if b2 in s and e2 in s:
+        s = s[: s.index(b2) + len(b2)] + "\n" + "\n".join(btable) + "\n" + s[s.index(e2):]
     open(p, "w").write(s)
-    print(len(rows), "rows;", sum(1 for r in rows if "**missed**" in r), "missed")
+    print(len(rows), "rows;", sum(1 for r in rows if "**missed**" in r), "missed;", len(brows), "harmless changes")
 
 
 if __name__ == "__main__":
